@@ -26,6 +26,13 @@ func (g *G) freshAlias() string {
 	return base + strconv.Itoa(g.alias)
 }
 
+// freshName: a Go field name whose json tag will have no name part (default alias = snake_case of the name)
+func (g *G) freshName() string {
+	g.alias++
+	base := []string{"Foo", "HTTPServer", "UserID", "X2Y", "JSONData", "Fld", "Zq_R", "Timeout", "MaxRetries"}[g.r.Intn(9)]
+	return base + strconv.Itoa(g.alias)
+}
+
 // typ generates a type; d is the remaining depth.
 func (g *G) typ(d int, allowAny bool) *ty {
 	if d <= 0 || g.r.Chance(2, 5) {
@@ -72,9 +79,21 @@ func (g *G) structTyp(d int, allowAny, allowInlineMap bool) *ty {
 	for i := 0; i < n; i++ {
 		switch g.r.Weighted([]int{10, 5, 3, 1}) {
 		case 0:
-			fs = append(fs, field{mode: 'n', alias: g.freshAlias(), t: g.typ(d-1, allowAny)})
+			f := field{mode: 'n', alias: g.freshAlias(), t: g.typ(d-1, allowAny)}
+			if g.r.Chance(1, 4) {
+				f.name = g.freshName()
+				f.alias = snakeCase(f.name)
+				g.c.Hit("type-default-alias")
+			}
+			fs = append(fs, f)
 		case 1:
-			fs = append(fs, field{mode: 'o', alias: g.freshAlias(), t: g.typ(d-1, allowAny)})
+			f := field{mode: 'o', alias: g.freshAlias(), t: g.typ(d-1, allowAny)}
+			if g.r.Chance(1, 3) {
+				f.name = g.freshName()
+				f.alias = snakeCase(f.name)
+				g.c.Hit("type-default-alias")
+			}
+			fs = append(fs, f)
 		case 2:
 			if allowInlineMap && !usedInlineMap && g.r.Bool() {
 				usedInlineMap = true
